@@ -3,7 +3,7 @@ its guard mutants.  Design-level leg of C17 (copy-on-write of the old list) and 
 import os, re, time
 from . import common as C
 
-INVS = ["ListWellFormed", "CopyOnWrite", "NoWriteToLiveOrFreed", "Conservation", "DiskMatchesMemory", "NoLeftoverPages"]
+INVS = ["ListWellFormed", "CopyOnWrite", "NoWriteToLiveOrFreed", "Conservation", "DiskMatchesMemory", "NoLeftoverPages", "HeadMovesWhenTaken"]
 CONFIGS = {
     "quick": [dict(M=3, MaxPage=14, MaxAlloc=3, MaxFreed=5, MaxSyncs=3, AllSubsets=True),
               dict(M=2, MaxPage=14, MaxAlloc=3, MaxFreed=6, MaxSyncs=4, AllSubsets=True)],
@@ -15,6 +15,7 @@ CONFIGS = {
 MUTANTS = {
     "renumber-head": dict(M=3, MaxPage=14, MaxAlloc=3, MaxFreed=5, MaxSyncs=3, AllSubsets=True),
     "new-full-portion": dict(M=3, MaxPage=26, MaxAlloc=8, MaxFreed=9, MaxSyncs=5, AllSubsets=False),
+    "dirty-on-every-pop": dict(M=3, MaxPage=14, MaxAlloc=3, MaxFreed=5, MaxSyncs=3, AllSubsets=True),
 }
 
 
